@@ -64,6 +64,16 @@ impl Storage {
         ensures r is Some <==> old(self)@.contains_key(key@),
                 r is Some ==> r->Some_0.0@ == key@ && same_item(item_of(r->Some_0.1), old(self)@[key@]),
                 final(self)@ =~= old(self)@.remove(key@) { unimplemented!() }
+    // remove_if(key, f): removes the entry iff it is present and f(key, value) is true - one atomic step
+    #[verifier::external_body]
+    pub fn remove_if<F: FnOnce(&KeyType, &Record) -> bool>(&mut self, key: &KeyType, f: F) -> (r: Option<(KeyType, Record)>)
+        requires forall|k: &KeyType, v: &Record| stamped_ok(*v) ==> #[trigger] f.requires((k, v)),
+        ensures
+            !old(self)@.contains_key(key@) ==> r is None && final(self)@ == old(self)@,
+            old(self)@.contains_key(key@) ==> exists|k: &KeyType, v: &Record, b: bool| k@ == key@ && stamped_ok(*v) && same_item(item_of(*v), old(self)@[key@]) && #[trigger] f.ensures((k, v), b)
+                && (b ==> r is Some && same_item(item_of(r->Some_0.1), old(self)@[key@]) && final(self)@ =~= old(self)@.remove(key@))
+                && (!b ==> r is None && final(self)@ == old(self)@),
+    { unimplemented!() }
     #[verifier::external_body]
     pub fn clear(&mut self) ensures final(self)@ =~= Map::<Seq<u8>, Item>::empty() { unimplemented!() }
     #[verifier::external_body]
